@@ -5,7 +5,7 @@ from .. import core, gen, impl_thr, scen
 from . import c01
 
 ID = "C02"
-BUDGET = {"quick": 600, "thorough": 60000}
+BUDGET = {"quick": 2400, "thorough": 300000}
 RULE = ("scenario = scheduler (naive/any offset) with 1-2 single-trigger weekly jobs; the start is placed so that all 7x7 "
         "(reference weekday in the trigger's offset, target weekday) pairs occur, on/around the occurrence (+-1us, +-1 week), "
         "with offsets that make the reference's weekday differ between start offset and trigger offset; polls relative to "
